@@ -47,6 +47,7 @@ func RunTasks(choose func(n, cur int) int, fns []func()) SchedStats {
 			fn()
 		}()
 	}
+	idle := 0 // consecutive scheduling points at which the running task found its lock taken
 	prevYield := Yield
 	Yield = func(op string) {
 		t := current
@@ -54,6 +55,11 @@ func RunTasks(choose func(n, cur int) int, fns []func()) SchedStats {
 			return
 		}
 		t.blocked = op == "blocked"
+		if t.blocked {
+			idle++
+		} else {
+			idle = 0
+		}
 		if op == "unlock" || op == "runlock" {
 			// Somebody released a lock: spinning tasks may try again.
 			for _, o := range tasks {
@@ -89,8 +95,9 @@ func RunTasks(choose func(n, cur int) int, fns []func()) SchedStats {
 		if len(ready) == 0 && len(spinning) > 0 {
 			// Everybody spins on a mutex: if a full round makes no progress
 			// this is a deadlock.
-			st.Switches++
-			if st.Switches > 1000000 {
+			// Nobody else can run or release anything: once each of them has retried several
+			// times in a row without any lock operation succeeding, nothing will ever change.
+			if idle > 8*len(spinning)+16 {
 				st.Deadlock = true
 				break
 			}
